@@ -139,6 +139,43 @@ def directed_cases() -> Iterable[Dict[str, Any]]:
             yield {"ds": dss, "ops": number_ops(ops), "sched": s}
 
 
+# operations handed to the collection before start() (ids from 901: never equal to an id of the session)
+PRE_SHAPES: List[List[List[Any]]] = [
+    [["u", 1, 0, 901]],
+    [["u", 20, 0, 901], ["u", 20, 1, 902], ["t", 20], ["u", 0, 2, 903]],
+    [["p", 0], ["u", 1, 2, 901]],                 # paused before start(): the session itself is not paused
+    [["r", 3], ["u", 1, 1, 901], ["p", 2], ["t", 40]],
+]
+
+
+def outside_session_cases() -> Iterable[Dict[str, Any]]:
+    """messages, ticks, pause and resume that arrive while no recording is running, then a session"""
+    progs = [SMALL_PROGRAMS[0], SMALL_PROGRAMS[2], SMALL_PROGRAMS[3],
+             ([{"fmt": f, "types": "A", "interval": 30} for f in D.FORMATS], [["u", 1, 0], ["u", 16, 1], ["u", 31, 2]])]
+    for dss, ops in progs:
+        for pre in PRE_SHAPES:
+            for s in ["", "RW" * 60, "RRRRRWWW" * 12]:
+                yield {"ds": dss, "ops": number_ops(ops), "sched": s, "pre": pre}
+
+
+def random_pre(rng) -> List[List[Any]]:
+    out: List[List[Any]] = []
+    k = 900
+    for _ in range(rng.randint(1, 4)):
+        r = rng.random()
+        dt = rng.choice([0, 1, 16, 31])
+        if r < 0.6:
+            k += 1
+            out.append(["u", dt, rng.randrange(3), k])
+        elif r < 0.75:
+            out.append(["t", dt])
+        elif r < 0.9:
+            out.append(["p", dt])
+        else:
+            out.append(["r", dt])
+    return out
+
+
 def random_case(rng, long: bool) -> Dict[str, Any]:
     nds = rng.choice([1, 1, 2, 2, 3])
     dss = []
@@ -159,6 +196,8 @@ def random_case(rng, long: bool) -> Dict[str, Any]:
         else:
             ops.append(["r", dt])
     case = {"ds": dss, "ops": number_ops(ops)}
+    if rng.random() < 0.25:
+        case["pre"] = random_pre(rng)
     # schedule: bursts of random length, three flavours of writer speed
     flavour = rng.choice(["even", "slowW", "fastW", "bursty"])
     total = rng.randint(0, 3 * r_steps(case))
@@ -187,12 +226,12 @@ def fine_directed() -> Iterable[Dict[str, Any]]:
     scheds = ["", "R" * 900, "W" * 25, "RW" * 300, "RRW" * 200, "RWW" * 200, "RRRRRWWW" * 80, "RWWWWW" * 120,
               "RRRRRRRRW" * 80, "R" * 9 + "W" * 6 + "R" * 30, "R" * 9 + "W" * 3 + "R" * 12 + "W" * 9 + "R" * 40]
     seen = set()
-    for case in directed_cases():
-        key = (str(case["ds"]), str(case["ops"]))
+    for case in itertools.chain(directed_cases(), outside_session_cases()):
+        key = (str(case["ds"]), str(case["ops"]), str(case.get("pre")))
         if key in seen:
             continue
         seen.add(key)
-        for s in scheds:
+        for s in (scheds if not case.get("pre") else scheds[:1] + scheds[3:5]):
             yield dict(case, sched=s, faults=[])
 
 
@@ -325,8 +364,10 @@ def _account(res: C.Result, cid: str, kind: str, case: Any, blk: List[str], meta
             if l.startswith("FB "):
                 _bump(X["file_bytes_compared"], case["ds"][int(l.split(" ", 2)[1])]["fmt"])
     if kind == "S":
-        key = (tuple(map(str, case["ds"])), tuple(map(tuple, case["ops"])), case["sched"])
+        key = (tuple(map(str, case["ds"])), tuple(map(tuple, case["ops"])), case["sched"], str(case.get("pre")))
         nontrivial = any(t.startswith("W:write") for t in meta["trace"])
+        if case.get("pre"):
+            _bump(X["branches"], "operations handed to the collection before start()")
         res.note_case(key, nontrivial)
         _bump(X["outcomes"], meta["status"])
         for op in case["ops"]:
@@ -352,7 +393,10 @@ def _account(res: C.Result, cid: str, kind: str, case: Any, blk: List[str], meta
         if len(case["ops"]) >= 6:
             res.sample({"case": case, "impl": blk[-(2 + sum(len(f) for f in meta["files"])):-1], "verdicts": verdict})
     elif kind == "G":
-        key = ("G", tuple(map(str, case["ds"])), tuple(map(tuple, case["ops"])), case["sched"], tuple(case["faults"]))
+        key = ("G", tuple(map(str, case["ds"])), tuple(map(tuple, case["ops"])), case["sched"], tuple(case["faults"]),
+               str(case.get("pre")))
+        if case.get("pre"):
+            _bump(X["fine_branches"], "operations handed to the collection before start()")
         res.note_case(key, any(t.startswith("W:l") for t in meta["trace"]))
         _bump(X["fine_outcomes"], meta["status"] + (" (failure injected)" if case["faults"] else ""))
         for t in meta["trace"]:
@@ -526,7 +570,7 @@ def run(res: C.Result, deep: bool):
     for p in sorted((C.CORPUS / PROP).glob("*.case")) if (C.CORPUS / PROP).is_dir() else []:
         import json
         items.append((f"c{n}", "S", json.loads(p.read_text()))); n += 1
-    for case in directed_cases():
+    for case in itertools.chain(directed_cases(), outside_session_cases()):
         items.append((f"d{n}", "S", case)); n += 1
     ex = list(exhaustive_cases(deep))
     for case in ex:
